@@ -473,6 +473,20 @@ pub fn run_with(cli: Cli, extra: &dyn Fn(&Report)) -> ! {
     rep.sample(json!({"spec": all[all.len() - 1], "note": "second connection after expiry (2.1 s of real time, expiry 0)"}));
     rep.assume("on the cookie-authenticated path the presence of a refreshed cookie is not judged (if one is issued it must verify and carry the cookie's identity)");
     rep.assume("timestamps are checked against the wall-clock bracket of the run");
+    // the n-th connection of a process is served like the first (5 000 logins one after the other; the ones around
+    // powers of two and the last are judged)
+    {
+        let keep: Vec<usize> = vec![0, 1, 2, 3, 62, 63, 64, 65, 254, 255, 256, 257, 258, 1022, 1023, 1024, 1025, 4094, 4095, 4096, 4097, 4998, 4999];
+        let many = crate::sim::after_many_connections(5_000, &keep, b"many-connections-secret");
+        for (i, case, obs) in &many {
+            for (aspect, text) in crate::sim::many_connections_faults(*i, case, obs, b"many-connections-secret") {
+                if aspect == "cookie" {
+                    rep.violation(Violation { key: "cookie-of-the-nth-connection".into(), text, replay: json!({"earlier": "many-connections", "index": i}), weight: 9 });
+                }
+            }
+        }
+        rep.set("connections_of_one_process_one_after_the_other", json!(5_000));
+    }
     extra(&rep);
     rep.finish()
 }
